@@ -1,6 +1,7 @@
 import Mav.Basic
 import Mav.Model.X25
 import Mav.Gen.Tables
+import Mav.Gen.Exprs
 /-
   MODEL of pkg/message/readwriter.go (ReadWriter.Initialize / Read / Write).
   Mirrors the Go code, including byte-wide size arithmetic and `arrayLength = 1` for a bare char.
@@ -136,7 +137,7 @@ def crcExtraOf (msgName : String) (sorted : List DField) : UInt8 :=
       let h := X25.write h (strBytes (Gen.fieldTypeString f.ftype ++ " "))
       let h := X25.write h (strBytes (f.name ++ " "))
       if f.arrayLength > 0 then X25.write h [f.arrayLength] else h) h0
-  ((h &&& (0xFF : UInt16)) ^^^ (h >>> 8)).toUInt8
+  Gen.crcExtraFold h
 
 def init (s : GoStruct) : Except InitErr RW := do
   if !s.name.startsWith "Message" then throw .namePrefix
